@@ -192,7 +192,11 @@ func (sys System) token(str string) (tokType, string, int) {
 	if typ == tXX {
 		return tokInvalid, str[start:i], i
 	}
-	opSet := operators[sys]
+	// Systems without an operator table (Composer) have no operators.
+	var opSet map[string]tokType
+	if int(sys) < len(operators) {
+		opSet = operators[sys]
+	}
 	// Loop as long as the type of the rune matches what we started with.
 	for ; ; i += wid {
 		r, wid = utf8.DecodeRuneInString(str[i:])
